@@ -255,57 +255,87 @@ func loadFakeRelayObs(wait time.Duration) (map[string][]string, error) {
 	}
 }
 
-// TestVerifConformRelay compares hysteria's end-to-end relay over the real QUIC stack with the
-// same histories over the fake (observations of unit relay-fake).
+// e2eItem is one end-to-end history of the real unit: the key of the fake unit's observation
+// file, the evidence part it is counted in, and how to run it on the real stack.
+type e2eItem struct {
+	key, part string
+	run       func() result
+}
+
+func e2eItems() []e2eItem {
+	var items []e2eItem
+	for _, h := range RelayHistories() {
+		items = append(items, e2eItem{h.Name, "relay-conformance", func() result { return runRealRelay(h) }})
+	}
+	for _, h := range AuthHistories() {
+		items = append(items, e2eItem{"auth/" + h.Name, "auth-conformance", func() result { return runRealAuth(h) }})
+	}
+	for _, c := range RateCases() {
+		items = append(items, e2eItem{"rate/" + c.Name, "rate-conformance", func() result { return runRealRate(c) }})
+	}
+	for _, h := range ReconnHistories() {
+		items = append(items, e2eItem{"reconnect/" + h.Name, "reconnect-conformance", func() result { return runRealReconn(h) }})
+	}
+	return items
+}
+
+// TestVerifConformRelay compares hysteria's end-to-end behaviour (TCP relay, authentication and
+// masquerade, rate negotiation, reconnecting client) over the real QUIC stack with the same
+// histories over the fake (observations of unit relay-fake).
 func TestVerifConformRelay(t *testing.T) {
 	evidence.Main(t, "CONFORM", evidence.Seq{Replay: replayRelay, Run: func(sh *evidence.Shard) {
 		env := sh.Env()
-		p := sh.Part("relay-conformance", "enum")
-		hs := RelayHistories()
-		var names []string
-		for _, h := range hs {
-			names = append(names, h.Name)
+		items := e2eItems()
+		names := map[string][]string{}
+		for _, it := range items {
+			names[it.part] = append(names[it.part], it.key)
 		}
-		p.Alphabet = names
+		for part, ns := range names {
+			sh.Part(part, "enum").Alphabet = ns
+		}
 		only := os.Getenv("CONFORM_ONLY")
 		real := map[string]result{}
-		for i, h := range hs {
-			if !env.Mine(int64(i)) || (only != "" && !strings.Contains(h.Name, only)) {
+		for i, it := range items {
+			if !env.Mine(int64(i)) || (only != "" && !strings.Contains(it.key, only)) {
 				continue
 			}
-			real[h.Name] = runRealRelay(h)
+			real[it.key] = it.run()
 		}
 		// the fake unit runs concurrently in another process; waiting for its file is a guard
 		fake, err := loadFakeRelayObs(90 * time.Second)
 		if err != nil {
-			p.Exhaustive = false
-			p.Note("inconclusive (nothing validated): %v", err)
+			for part := range names {
+				p := sh.Part(part, "enum")
+				p.Exhaustive = false
+				p.Note("inconclusive (nothing validated): %v", err)
+			}
 			return
 		}
-		for _, h := range hs {
-			rr, ok := real[h.Name]
+		for _, it := range items {
+			rr, ok := real[it.key]
 			if !ok {
 				continue
 			}
+			p := sh.Part(it.part, "enum")
 			p.Evaluations++
-			v := verdict{Script: h.Name, Fake: fake[h.Name], Real: rr.Log, Status: rr.Status}
+			v := verdict{Script: it.key, Fake: fake[it.key], Real: rr.Log, Status: rr.Status}
 			switch {
 			case rr.Status != "ok":
 				v.Outcome = "inconclusive"
 				p.Exhaustive = false
-				p.Note("inconclusive (not validated): %s: %s; real log so far: %s", h.Name, rr.Status, strings.Join(rr.Log, " / "))
+				p.Note("inconclusive (not validated): %s: %s; real log so far: %s", it.key, rr.Status, strings.Join(rr.Log, " / "))
 			case equalLogs(v.Fake, v.Real):
 				v.Outcome = "matched"
 				p.ImplTraces++
-				p.Sample(map[string]any{"history": h.Name, "log": v.Real})
+				p.Sample(map[string]any{"history": it.key, "log": v.Real})
 			default:
 				v.Outcome = "mismatch"
-				sh.Violate("relay-conformance", "conform/relay/"+h.Name+"/mismatch", diffDetail(v), map[string]any{"history": h.Name, "fake": v.Fake, "real": v.Real})
+				sh.Violate(it.part, "conform/e2e/"+it.key+"/mismatch", diffDetail(v), map[string]any{"history": it.key, "fake": v.Fake, "real": v.Real})
 			}
-			p.Class(h.Name, v.Outcome)
+			p.Class(it.key, v.Outcome)
 			p.Count(v.Outcome, 1)
 			if only != "" {
-				t.Logf("%s: %s\n%s", h.Name, v.Outcome, diffDetail(v))
+				t.Logf("%s: %s\n%s", it.key, v.Outcome, diffDetail(v))
 			}
 		}
 	}})
@@ -314,7 +344,7 @@ func TestVerifConformRelay(t *testing.T) {
 // replayRelay re-runs one history on the real stack and compares it with the fake unit's file
 // (which must exist: run unit relay-fake first).
 func replayRelay(part string, raw json.RawMessage) (handled, reproduced bool, detail string) {
-	if part != "relay-conformance" {
+	if !strings.HasSuffix(part, "-conformance") || part == "quic-conformance" {
 		return false, false, ""
 	}
 	var r struct {
@@ -327,10 +357,10 @@ func replayRelay(part string, raw json.RawMessage) (handled, reproduced bool, de
 	if err != nil {
 		return true, false, err.Error()
 	}
-	for _, h := range RelayHistories() {
-		if h.Name == r.History {
-			rr := runRealRelay(h)
-			v := verdict{Script: h.Name, Fake: fake[h.Name], Real: rr.Log, Status: rr.Status}
+	for _, it := range e2eItems() {
+		if it.key == r.History {
+			rr := it.run()
+			v := verdict{Script: it.key, Fake: fake[it.key], Real: rr.Log, Status: rr.Status}
 			return true, rr.Status == "ok" && !equalLogs(v.Fake, v.Real), diffDetail(v)
 		}
 	}
